@@ -24,6 +24,7 @@ func C16(ctx *core.Ctx, r *core.Report) {
 	c16OperatorTable(ctx, r)
 	c16SyntaxErrors(ctx, r)
 	c16WhereScope(ctx, r)
+	c16WhereBaseByIdentity(ctx, r)
 	r.Count("instances:no-stale-verdicts(tables of data-derived answers)", noStaleVerdicts(ctx, r, scopeFuncs(ctx, "node"), "node", "nodeutil"))
 }
 
